@@ -164,6 +164,7 @@ class State:
         self.exit = None
         self.steps = 0
         self.init = {}
+        self.entry_rsp = None
 
     def copy(self):
         s = State()
@@ -178,6 +179,7 @@ class State:
         s.exit = self.exit
         s.steps = self.steps
         s.init = self.init
+        s.entry_rsp = self.entry_rsp
         return s
 
     # -- regions ---------------------------------------------------------------------
